@@ -440,9 +440,65 @@ func (fr *Frame) encodeFindStringIndex(x *ssa.Call) {
 				"(str.in_re (str.substr "+s.T+" 0 "+i0+") (re.* (re.diff re.allchar "+cls+")))",
 				"(str.in_re (str.substr "+s.T+" "+i0+" (- "+i1+" "+i0+")) (re.+ "+cls+"))", endOK) + ")"
 		}
+		// the match as a function of the string: classRun(s) is THE maximal prefix of class characters (the spec
+		// function contracts use; determinism of the match is part of the assumed contract of regexp)
+		// the first and the last character of a non-empty match are class characters (consequences of the above that
+		// the string solvers do not derive quickly by themselves)
 		sems = append(sems, implies(eq(rx.T, smtString(lit)), sem))
 	}
 	fr.assumeHere(and(sems...), "fsi")
+}
+
+// classRunFn declares (once per VC) the spec function "maximal prefix of characters of a class" with its
+// characterisation, and returns its SMT name.
+func classRunFn(vc *VC, classBody string) string {
+	name := "classRun_" + classKey(classBody)
+	if vc.declSet[name] {
+		return name
+	}
+	cls, err := smtClass(classBody)
+	if err != nil {
+		vc.addErr("%v", err)
+		return name
+	}
+	vc.declareFun(name, []string{"String"}, "String")
+	x := fmt.Sprintf("x$%d", vc.nextBound())
+	r := "(" + name + " " + x + ")"
+	vc.classAxioms = append(vc.classAxioms, fmt.Sprintf("(forall ((%s String)) (! (and (str.prefixof %s %s) (str.in_re %s (re.* %s)) (or (= (str.len %s) (str.len %s)) (not (str.in_re (str.at %s (str.len %s)) %s)))) :pattern (%s)))",
+		x, r, x, r, cls, r, x, x, r, cls, r))
+	return name
+}
+
+// classRunApp builds the application classRun_c(arg) and, for a ground argument, records the characterisation of
+// that instance (the quantified axiom does not survive the quantifier-free weakening used for string obligations).
+func classRunApp(vc *VC, classBody, arg string, instances bool) string {
+	name := classRunFn(vc, classBody)
+	r := "(" + name + " " + arg + ")"
+	if strings.Contains(arg, "$") {
+		return r
+	}
+	if vc.classInst == nil {
+		vc.classInst = map[string]bool{}
+	}
+	if instances && !vc.classInst[r] {
+		vc.classInst[r] = true
+		cls, err := smtClass(classBody)
+		if err == nil {
+			vc.classAxioms = append(vc.classAxioms, fmt.Sprintf("(and (str.prefixof %s %s) (str.in_re %s (re.* %s)) (or (= (str.len %s) (str.len %s)) (not (str.in_re (str.at %s (str.len %s)) %s))))",
+				r, arg, r, cls, r, arg, arg, r, cls))
+		}
+	}
+	return r
+}
+
+func classKey(body string) string {
+	switch body {
+	case " ":
+		return "space"
+	case "A-Za-z0-9-.":
+		return "idch"
+	}
+	return sanitize(fmt.Sprintf("%x", body))
 }
 
 func (fr *Frame) encodeSortSlice(x *ssa.Call) {
